@@ -296,6 +296,14 @@ fn run_property(ctx: &Ctx, prop: &str) {
             });
             t.samples.truncate(1);
             merge(&mut s, t);
+            let sl = streams::stored_long_streams(&mut Rng::new(seed ^ 0x5105), ctx.thorough());
+            let mut t = run_cases(ctx, sl.len() as u64, |i| {
+                let mut c = streams::c05_bytes(&sl[i as usize].0, &sl[i as usize].1, false);
+                c.tags.push("stored-long".into());
+                c
+            });
+            t.samples.truncate(1);
+            merge(&mut s, t);
             let n = ctx.n(2500, 40000);
             merge(&mut s, run_cases(ctx, n, |i| {
                 let c = streams::case(seed ^ 0x05, i, 70000, false);
@@ -319,6 +327,15 @@ fn run_property(ctx: &Ctx, prop: &str) {
                 let c = streams::Case { s: gen::StreamCase { bytes: bs[i as usize].0.clone(), label: bs[i as usize].1.clone(), plain: None }, source: streams::Source::Own };
                 let mut o = streams::c02_case(&c, &mut Rng::new(seed ^ i));
                 o.tags.push("boundary-stream".into());
+                o
+            });
+            t.samples.truncate(1);
+            merge(&mut s, t);
+            let sl = streams::stored_long_streams(&mut Rng::new(seed ^ 0x5102), ctx.thorough());
+            let mut t = run_cases(ctx, sl.len() as u64, |i| {
+                let c = streams::Case { s: gen::StreamCase { bytes: sl[i as usize].0.clone(), label: sl[i as usize].1.clone(), plain: None }, source: streams::Source::Own };
+                let mut o = streams::c02_case(&c, &mut Rng::new(seed ^ i));
+                o.tags.push("stored-long".into());
                 o
             });
             t.samples.truncate(1);
@@ -357,6 +374,15 @@ fn run_property(ctx: &Ctx, prop: &str) {
                 let c = streams::Case { s: gen::StreamCase { bytes: bs[i as usize].0.clone(), label: bs[i as usize].1.clone(), plain: None }, source: streams::Source::Own };
                 let mut o = streams::c08_case(&c, &mut Rng::new(seed ^ i), 3, maxlim);
                 o.tags.push("boundary-stream".into());
+                o
+            });
+            t.samples.truncate(1);
+            merge(&mut s, t);
+            let sl = streams::stored_long_streams(&mut Rng::new(seed ^ 0x5108), ctx.thorough());
+            let mut t = run_cases(ctx, sl.len() as u64, |i| {
+                let c = streams::Case { s: gen::StreamCase { bytes: sl[i as usize].0.clone(), label: sl[i as usize].1.clone(), plain: None }, source: streams::Source::Own };
+                let mut o = streams::c08_case(&c, &mut Rng::new(seed ^ i), 2, maxlim);
+                o.tags.push("stored-long".into());
                 o
             });
             t.samples.truncate(1);
